@@ -61,7 +61,7 @@ theorem KeyInv_local (F : Flags) (o : Obs) (x : Act) (ev : Ev) (y : Act) (eff : 
   obtain ⟨h1, h2, h3, h4⟩ := hK
   step_local_cases h
   all_goals (constructor <;> (try simp only [preReg_next, preReg_afterCmd, preReg_afterDefer]) <;>
-    (try (simp_all [preReg, waiterPhase, idlePhase, Act.stop]; done)))
+    (try (simp_all [preReg, waiterPhase, idlePhase, Act.stop, Act.stopDeps]; done)))
   all_goals (cases hk : x.key <;> simp_all [preReg, waiterPhase, idlePhase])
 
 theorem KeyInv_fresh (P : Program) (F : Flags) (c : Config) (kind : Kind) (t : Nat) :
@@ -171,18 +171,18 @@ theorem ExecsInv_step (P : Program) (F : Flags) (c c' : Config) (l : Label)
 
 def WaiterInv (c : Config) : Prop :=
   ∀ w wx k, c.act? w = some wx → wx.waitsFor = some k → wokenPhase wx.phase = true →
-    execResultOf c (some k) = some wx.res
+    execResultOf c (some k) = some wx.out
 
 theorem WaiterInv_init (n : Nat) : WaiterInv (init n) := by
   intro a x k hx; simp [init, Config.act?] at hx
 
 set_option maxHeartbeats 1000000 in
-/-- a waiter gets into a woken phase only by `wWake`, which copies the result of the
-finished execution; afterwards its result does not change -/
+/-- a waiter gets into a woken phase only by `wWake`, which copies the outcome of the
+finished execution; afterwards that does not change -/
 theorem stepLocal_woken (F : Flags) (o : Obs) (x : Act) (ev : Ev) (y : Act) (eff : Eff) (k : Nat)
     (hK : KeyInv x) (h : stepLocal F o x ev = some (y, eff))
     (hw : y.waitsFor = some k) (hp : wokenPhase y.phase = true) :
-    x.waitsFor = some k ∧ ((wokenPhase x.phase = true ∧ y.res = x.res) ∨ o.execResult () = some y.res) := by
+    x.waitsFor = some k ∧ ((wokenPhase x.phase = true ∧ y.out = x.out) ∨ o.execResult () = some y.out) := by
   have hxw : x.waitsFor = some k := by
     rcases stepLocal_waitsFor F o x ev y eff h with ⟨h1, _⟩ | ⟨k', _, _, _, _, _, hph⟩
     · rw [← h1]; exact hw
